@@ -11,6 +11,7 @@ the callee's return shapes with its bool parameters substituted by constant argu
 (summaries to a fixpoint, recursion cut with '?').  Conditions dominating the site restrict the
 shapes of a call result component-wise (the relational part: `if let (Some(b), Some(e)) = f()`).
 """
+import re
 from .core import callee_of, callee_decl, callee_matches, op_place, op_const, origins, place_fields, strip_generics, callee_name
 from .flow import conditions
 
@@ -267,6 +268,25 @@ def shapes_of(prog, body, op, site=None, stack=(), depth=0, penv=None):
         return {"?"}
     out = set()
     p = op_place(op)
+    if p is not None:
+        # a value that is neither a bool, an Option nor a tuple has no shape to follow (a vector moved out of a struct, ..)
+        ty = body.local_ty(p["l"])
+        for e in p["p"]:
+            if e == "*":
+                ty = ty.lstrip("&")
+                ty = ty[4:] if ty.startswith("mut ") else ty
+                if ty.startswith("alloc::boxed::Box<") and ty.endswith(">"):
+                    ty = ty[len("alloc::boxed::Box<") : -1]
+            elif isinstance(e, dict) and "f" in e and e.get("ty"):
+                ty = e["ty"]
+            else:
+                ty = None
+                break
+        if ty is not None:
+            ty = ty.lstrip("&")
+            ty = ty[4:] if ty.startswith("mut ") else ty
+            if _ty_kind(ty) == "other" and not ty.startswith("impl ") and "dyn " not in ty[:5] and re.match(r"^(alloc::vec::Vec<|alloc::string::String$|usize$|\[)", ty):
+                return {"v"}
     flt = None
     if penv:
         dead = infeasible_blocks(prog, body, penv, stack)
